@@ -49,10 +49,12 @@ def _res(f, *a):
 def ev_rename(ident: int, name: str, style: str) -> dict:
     out, r = _res(rename_field, name, style)
     again = back = {'k': 'skip'}
+    cross = []
     if out['k'] == 'ok':
         again, _ = _res(rename_field, r, style)
         back, _ = _res(rename_field, r, 'snake')
-    return {'id': ident, 'op': 'rename', 'name': codes(name), 'style': style, 'out': out, 'again': again, 'back': back}
+        cross = [{'style': s2, 'out': _res(rename_field, r, s2)[0]} for s2 in STYLES]      # pairs of styles
+    return {'id': ident, 'op': 'rename', 'name': codes(name), 'style': style, 'out': out, 'again': again, 'back': back, 'cross': cross}
 
 
 _cls_n = [0]
@@ -69,6 +71,11 @@ def class_events(start: int, names: list, style: str) -> list:
         obj = cls(**{n: i for i, n in enumerate(names)})
         keys1 = list(obj.into_data().keys())
         keys2 = list(obj.dict(rename=style).keys())
+        keys3 = list(obj.dict(set_only=True, rename=style).keys())      # (every field was given to the constructor)
+        if sorted(keys3) != sorted(keys2):
+            keys2 = keys3 if len(keys3) == len(keys2) else ['?'] * len(keys2)
+        else:
+            keys2 = [k for k in keys2]
         back = cls.from_data(obj.into_data())
         ok = back == obj
     except Exception as e:  # noqa
